@@ -209,6 +209,50 @@ def run(ctx):
             exit_runs.append({"patterns": pat, "flags": extra, "rc": r["rc"], "diagnostics_printed": printed})
             if (r["rc"] != 0) != (printed > 0) or r["crashed"]:
                 problems.append({"what": "text mode: exit status %d with %d diagnostics printed" % (r["rc"], printed), "patterns": pat, "flags": extra, "stderr_tail": r["stderr"][-400:]})
+    # (E) the other driver and other working directories: under `go vet -vettool` the tool runs with the PACKAGE directory as working
+    # directory; the stand-alone binary may be started inside an excluded directory.  No diagnostic may lie in an excluded file.
+    ex_cfg = cfgs[2][1]
+    vfl = ["-config.scan-tests=true", "-config.exclude-paths=" + ",".join(ex_cfg[1])]
+    rc, out, err = lib.sh(["go", "vet", "-vettool=" + ctx.gg] + vfl + ["./x0000/...", "./x0001/..."], cwd=root2, env=ctx.env, timeout=1200)
+    vet_positions = 0
+    for line in (err + "\n" + out).split("\n"):
+        mm = re.match(r"^(\S+?\.go):(\d+):(\d+): error: \[(\w+)\]", line.strip())
+        if mm:
+            vet_positions += 1
+            f = mm.group(1)
+            absf = f if f.startswith("/") else os.path.normpath(os.path.join(root2, f))
+            if any(pth in absf for pth in ex_cfg[1]):
+                problems.append({"what": "go vet -vettool: a diagnostic lies in a file excluded by exclude-paths", "file": os.path.relpath(absf, root2), "line": int(mm.group(2)), "code": mm.group(4),
+                                 "exclude_paths": ex_cfg[1]})
+    if lib.crash_in(err + out):
+        problems.append({"what": "go vet -vettool failed", "stderr_tail": err[-500:]})
+    gen_dirs = sorted({os.path.dirname(k) for k in files0 if "/gen/" in "/" + k})
+    for gd in gen_dirs[:2]:
+        r = lib.run_binary(ctx, os.path.join(root2, gd), flags=["--config.scan-tests=true", "--config.exclude-paths=" + ",".join(ex_cfg[1])], patterns=["./..."], timeout=600)
+        for x in r["diags"]:
+            absf = os.path.normpath(os.path.join(root2, gd, x["file"]))
+            if any(pth in absf for pth in ex_cfg[1]):
+                problems.append({"what": "stand-alone binary started inside an excluded directory: a diagnostic lies in an excluded file", "file": os.path.relpath(absf, root2), "line": x["line"], "code": x["code"]})
+    # (F) a diagnostic on the LAST line of its file (with and without a final newline) is rendered like every other one
+    last = {"ll/lib/lib.go": "package lib\n\n// T is annotated.\n// @immutable\n// @constructor NewT\ntype T struct{ F int }\n\nfunc NewT() *T { return &T{} }\n\n// I is an interface.\ntype I interface{ M() }\n",
+            "ll/a/a.go": "package a\n\nimport \"w/ll/lib\"\n\nvar X = lib.T{F: 1}\n",
+            "ll/b/b.go": "package b\n\nimport \"w/ll/lib\"\n\nvar _ = lib.NewT\n\n// @implements lib.I\ntype B struct{}",
+            "ll/c/c.go": "package c\n\nimport \"w/ll/lib\"\n\nfunc f(t *lib.T) { t.F = 1 }"}
+    d3 = lib.scratch_dir()
+    root3 = os.path.join(d3, "m")
+    worlds.write_sources(root3, last)
+    for rel, text in last.items():      # write_sources may normalise the final newline: keep the bytes as given
+        open(os.path.join(root3, rel), "w").write(text)
+    r = lib.run_binary(ctx, root3, timeout=600)
+    last_seen = 0
+    for pkg, an, f, line, col, msg in raw_diags(r["stdout"], root3):
+        last_seen += 1
+        cat = re.sub(r"\d+$", "", (HEAD.match(msg.split("\n")[0]) or [None, "?"])[1])
+        if not msg.endswith("   = help: %s\n" % urls.get(cat)):
+            problems.append({"what": "a diagnostic on the last line of its file is rendered without excerpt / help line", "file": f, "line": line, "message": msg[:300]})
+    if last_seen != 3 or r["crashed"]:
+        problems.append({"what": "last-line module: %d diagnostics instead of 3 (CTOR01, IMPL03, IMM01 on the last lines of a.go, b.go, c.go)" % last_seen, "stderr_tail": r["stderr"][-300:]})
+    shutil.rmtree(d3, ignore_errors=True)
     shutil.rmtree(d2, ignore_errors=True)
     if problems:
         found = True
@@ -227,7 +271,7 @@ def run(ctx):
                        "analyzer of the category, file of the reporting package and not excluded, single help line = the category's page; for IMM/CTOR/TONL/PKGO the full message text must equal the "
                        "model's rendering of (file content, line, column, code, short message). Self-suppression: up to 2 diagnostics per (world, code, first line of a statement or a continuation line) get `// @ignore CODE` appended, all at once; the "
                        "re-run must lose exactly those (TONL01/PKGO01 may move) by the C07 text oracle and the model. Text mode: %d runs over package patterns with and without diagnostics "
-                       "(exclude-checks=ALL). non-trivial = distinct codes seen + suppressed samples + text-mode runs that printed diagnostics" % (n, len(exit_runs)))
+                       "(exclude-checks=ALL); the exclude-paths configuration also through go vet -vettool (tool started in the package directory) and by the stand-alone binary started inside an excluded directory; a module whose three diagnostics sit on the last line of their files (with / without final newline). non-trivial = distinct codes seen + suppressed samples + text-mode runs that printed diagnostics" % (n, len(exit_runs)))
     rep.cov["diagnostics_checked"] = checked
     rep.cov["codes_seen"] = per_code
     rep.cov["messages_equal_to_model_rendering"] = text_equal
